@@ -696,9 +696,37 @@ def concat_rule(ctx):
                 return True, "already wrapped chain or wrap_to_string(..)"
             return (wt and we), "if/else"
         if e.get("k") == "path" and len(e["segs"]) == 1:
-            init = binding_before(e["s"], e)
-            if init is not None and init is not e0:
-                return wrapped(init, depth + 1)
+            from rules.c02 import FnScope
+            r = FnScope(g.node, []).resolve(e["s"], e)   # the innermost binding that is visible here
+            if r is not None and r[0] == "let" and r[1] is not None and r[1] is not e0 and not r[2]:
+                return wrapped(r[1], depth + 1)
+            if r is None or r[0] not in ("match",):
+                init = binding_before(e["s"], e)
+                if init is not None and init is not e0:
+                    return wrapped(init, depth + 1)
+            # bound by a `Some(name)` pattern over an Option-valued local: every `Some(X)` the local can hold must be wrapped
+            if r is not None and r[0] == "match" and r[1] is not None and sir.strip_ref(r[1]).get("k") == "path":
+                r2 = FnScope(g.node, []).resolve(sir.strip_ref(r[1])["s"], r[3])
+                src = r2[1] if r2 is not None and r2[0] == "let" else binding_before(sir.strip_ref(r[1])["s"], r[3])
+                if src is not None and src.get("k") == "match":
+                    res = []
+                    for a in src["arms"]:
+                        b = a["body"]
+                        while b.get("k") == "block" and b["stmts"] and b["stmts"][-1].get("k") == "expr":
+                            b = b["stmts"][-1]["e"]
+                        if b.get("k") == "path" and b["segs"][-1] == "None":
+                            continue
+                        if b.get("k") == "call" and sir.call_name(b) == "Some" and b["args"]:
+                            x = b["args"][0]
+                            gd_ = sir.expr_str(a["guard"]).replace(" ", "") if a.get("guard") is not None else ""
+                            if x.get("k") == "path" and gd_ == "has_wrap_to_string":
+                                res.append(True)   # an already wrapped chain, kept as it is
+                            else:
+                                res.append(wrapped(x, depth + 1)[0])
+                        else:
+                            res.append(False)
+                    if res:
+                        return all(res), "each value the pending left part can take is a string piece or wrapped (%d cases)" % len(res)
             return False, "bare `%s`" % e["s"]
         return False, sir.expr_str(e)[:40]
     for n in sir.walk(g.node, into_items=True):
@@ -711,8 +739,8 @@ def concat_rule(ctx):
                 obs.append(ob("C04.text/concat/%d-%s" % ((k + 1) // 2, fl["name"]), okk, ctx.where(g),
                               "operand `%s` of a text concatenation is %s" % (fl["name"], why) + ("" if okk else ": a null/undefined binding would render as \"null\"/\"undefined\""),
                               witness=None if okk else "<div>{{a}}{{b}}</div> with a undefined renders \"undefinedB\""))
-    if k < 6:
-        obs.append(ob("C04.floor/concat", False, ctx.where(g), "only %d concatenation operands found (floor 6)" % k))
+    if k < 2:
+        obs.append(ob("C04.floor/concat", False, ctx.where(g), "only %d concatenation operands found (floor 2)" % k))
     return obs
 
 
